@@ -1,7 +1,7 @@
 (* C04: the [full_step] instance the OCaml driver and the in-Coq cross-check run. *)
 From Verif Require Import Base.Prelude Base.Machine.
-From Verif Require Import Model.FunctionStore Spec.WriteSpec.
+From Verif Require Import Model.FunctionStore Model.WriteStore Spec.WriteSpec.
 
 Definition init := Build_full init wminit wminit wsinit.
-Definition fstep := full_step step wmon wscope wexcuses parse_op print_obs parse_obs.
-Definition frun := full_run step wmon wscope wexcuses parse_op print_obs parse_obs init.
+Definition fstep := full_step wstep womon woscope wexcuses parse_wop print_obs parse_obs.
+Definition frun := full_run wstep womon woscope wexcuses parse_wop print_obs parse_obs init.
